@@ -19,15 +19,23 @@ impl EventSource for Sleep {
     // register the coroutine to the park
     fn subscribe(&mut self, co: CoroutineImpl) {
         let cancel = co_cancel_data(&co);
-        // put the coroutine into the timer list
+        // the coroutine may run again as soon as somebody else can get at it
+        let dur = self.dur;
         let sleep_co = Arc::new(AtomicOption::some(co));
-        get_scheduler().add_timer(self.dur, sleep_co.clone());
+        // register the cancel data before the timer can fire: once the coroutine
+        // is resumed it may block again, a registration made after that point
+        // would replace the one of the later call
+        cancel.set_co(sleep_co.clone());
+        // put the coroutine into the timer list
+        get_scheduler().add_timer(dur, sleep_co.clone());
 
-        // register the cancel data
-        cancel.set_co(sleep_co);
-        // re-check the cancel status
+        // re-check the cancel status: the canceller may have come before the
+        // registration, wake the coroutine up ourselves then
         if cancel.is_canceled() {
-            unsafe { cancel.cancel() };
+            if let Some(mut co) = sleep_co.take() {
+                crate::yield_now::set_co_para(&mut co, std::io::Error::other("Canceled"));
+                get_scheduler().schedule(co);
+            }
         }
     }
 }
